@@ -284,6 +284,7 @@ class C15(Prop):
         yield from self.gen_weights(rng, big)
         yield from self.gen_sizes(rng, big)
         yield from self.gen_histories(rng, big)
+        yield from self.gen_out_of_range(rng, big)
 
     def mine(self):
         self._g += 1
@@ -533,6 +534,19 @@ class C15(Prop):
                 yield mk('c15.sizes', blk, tag='sizes ' + name)
                 yield mk('c15.spec.sizes', blk, tag='spec-sizes ' + name)
 
+    # ---- mutable transactions edited out of the constructor's range: the stripped copy made by GetTxid /
+    #      calc_weight / CheckTransaction goes through the validating immutable constructor (ValueError)
+    def gen_out_of_range(self, rng, big):
+        for rep in range(8 if big else 2):
+            for wit in ('none', 'empty', 'some', 'all'):
+                for field, value in (('lock', 2 ** 32), ('lock', 2 ** 32 - 1), ('seq', 2 ** 32), ('seq', 2 ** 32 - 1),
+                                     ('n', 2 ** 32), ('n', 2 ** 32 - 1), ('hash', 31), ('hash', 33), ('hash', 32)):
+                    if not self.mine():
+                        continue
+                    t = small_tx(rng, wit, nin=rng.choice([1, 2]), nout=1)
+                    for what in ('txid', 'wtxid', 'weight', 'checktx'):
+                        yield mk('c15.oor', what, field, value, txfmt.show_tx(t), tag='oor %s %s=%d %s' % (what, field, value, wit))
+
     # ---- transactions with a history: caches warmed, edited in place, block built, originals edited again --
     def gen_histories(self, rng, big):
         kinds = ['imm', 'mut', 'hist', 'hist', 'hist', 'deser', 'deser-mut', 'same-imm', 'same-hist']
@@ -611,6 +625,22 @@ class C15(Prop):
 
     # ---- the real code ---------------------------------------------------------------------
     def model_line(self, c):
+        if c['op'] == 'c15.oor':
+            what, field, value, tx = c['args']
+            t = txfmt.parse_tx(tx)
+            value = int(value)
+            h, n, sc, q = t['vin'][-1]
+            if field == 'lock':
+                t['lock'] = value
+            elif field == 'seq':
+                t['vin'][-1] = (h, n, sc, value)
+            elif field == 'n':
+                t['vin'][-1] = (h, value, sc, q)
+            else:
+                t['vin'][-1] = ((h * 2)[:value], n, sc, q)
+            s_ = txfmt.show_tx(t)
+            return {'txid': 'c15.txid\t' + s_, 'wtxid': 'c15.wtxid\t' + s_, 'weight': 'c15.weight\t' + s_,
+                    'checktx': 'c16.checktx\tmainnet\t' + s_}[what]
         if c['op'] == 'c15.hist':
             txs1, root = hist_plain(c['args'])
             return 'c15.blockobs\t' + txfmt.show_block(dict(hdr=dict(HIST_HDR, merkle=root), vtx=txs1))
@@ -623,6 +653,29 @@ class C15(Prop):
         op, a = c['op'], c['args']
         if op == 'c15.hist':
             return self.impl_hist(c)
+        if op == 'c15.oor':
+            what, field, value, tx = a
+            value = int(value)
+            t = txfmt.to_tx(txfmt.parse_tx(tx), mutable=True)
+            if field == 'lock':
+                t.nLockTime = value
+            elif field == 'seq':
+                t.vin[-1].nSequence = value
+            elif field == 'n':
+                t.vin[-1].prevout.n = value
+            else:
+                t.vin[-1].prevout.hash = (t.vin[-1].prevout.hash * 2)[:value]
+            if what == 'txid':
+                return guarded(lambda: t.GetTxid().hex())
+            if what == 'wtxid':
+                return guarded(lambda: t.GetHash().hex())
+            if what == 'weight':
+                return guarded(lambda: str(t.calc_weight()))
+
+            def f():
+                C.CheckTransaction(t)
+                return 'ok'
+            return guarded(f)
         if op in ('c15.root', 'c15.spec.root'):
             hs = [bytes.fromhex(h) for h in a[0].split(',')] if a[0] else []
             return guarded(lambda: C.CBlock.build_merkle_tree_from_txids(hs)[-1].hex())
